@@ -664,7 +664,8 @@ impl Float {
 impl FloatLike {
     pub(crate) fn parse(&self) -> f64 {
         match self {
-            FloatLike::Number(n) => n.parse_signed() as _,
+            // an integer where a float is allowed is not limited to 16 bits
+            FloatLike::Number(n) => n.text().parse().unwrap(),
             FloatLike::Float(n) => n.parse(),
         }
     }
